@@ -118,19 +118,23 @@ CHECKS["C12"] = dict(
 
 ATB = TB + "tokio's LocalSet, futures::Abortable and oneshot channels are replaced by explicit schedules and three-line transition rules (compared on every run, not verified)."
 CHECKS["C13"] = dict(
-    category="other",
-    technique="executable Gallina transition system of sycamore-futures' suspense scopes + differential correspondence over all completion orders + oracle; theorems in progress",
-    text=("Async/Suspense.v models suspense scopes (counter owned by the enclosing scope, parent links), scoped tasks made of chained awaits and their guards. Every run drives the real "
-          "create_suspense_scope / create_suspense_task / is_loading / use_is_loading on a current-thread tokio runtime with explicit schedules over 8 shapes of trees of <= 3 boundaries, "
-          "ALL orders in which <= 5 awaits complete, and compares every observation with the model; the oracle checks is_loading <=> an unfinished task under the boundary or an ancestor after "
-          "every step. The rendering half (blocking returns only when all tasks finished; streaming emits shell once, each boundary once, parent first) is NOT covered yet. No theorem yet: level `other`."),
+    technique="Coq proof (counter invariant by induction over all schedules) on a transition system of sycamore-futures' suspense scopes + differential correspondence over all completion orders + oracle; rendering half by correspondence/oracle only",
+    text=("Async/Suspense.v models suspense scopes (counter owned by the enclosing scope, parent links), scoped tasks made of chained awaits and their guards. Proved for every program with distinct "
+          "task ids, EVERY schedule of task steps and scope disposals and every boundary whose chain of enclosing boundaries is alive: the counter of a boundary equals the number of unfinished tasks "
+          "registered under it (CInv, established by init and preserved by every step: C14_counter_invariant_reachable) and therefore is_loading = some unfinished task under the boundary or an "
+          "enclosing one (C13_is_loading_iff_pending); the report is a function of the set of unfinished tasks, hence independent of completion order (C13_report_depends_on_pending_set). Every run "
+          "drives the real create_suspense_scope / create_suspense_task / is_loading / use_is_loading on a current-thread tokio runtime with explicit schedules over 8 shapes of trees of <= 3 "
+          "boundaries, ALL orders in which <= 5 awaits complete, and compares every observation with the model; the oracle restates the iff on the observed flags. PARTIAL: the rendering half "
+          "(blocking returns only when all tasks finished; streaming emits shell once, each boundary once, parent first) has no theorem."),
     note=ATB, design="5.C13")
 CHECKS["C14"] = dict(
-    category="other",
-    technique="executable Gallina transition system + fault enumeration (a disposal at every step for every scope) against the real executor + oracle; theorems in progress",
-    text=("Same transition system with cancellation: disposing a scope aborts the tasks spawned under it; the executor later drops them and their guards. Every run inserts a disposal of every "
-          "scope at every position of several schedules over 5 base trees (348 cases quick), drains the executor, and compares poll logs, panics caught by the hook and loading flags with the "
-          "model; the oracle checks: no poll of a task after its scope died, no panic at disposal / at task drop / at root disposal, counters of surviving boundaries released. No theorem yet: level `other`."),
+    technique="Coq proof (absorbing task status, panic-freedom and counter invariant, by induction over all schedules) on the transition system + fault enumeration (a disposal at every step for every scope) against the real executor + oracle",
+    text=("Same transition system with cancellation: disposing a scope aborts the tasks spawned under it; the executor later drops them and their guards. Proved for every state, schedule and "
+          "disposal point: a pending task under the disposed scope becomes Cancelled and no later step of ANY continuation polls or completes it (C14_no_poll_after_dispose, "
+          "C14_never_polled_again); no step, task drop or final root disposal panics (C14_no_panic, for the fixed guard; Example pinned_panics shows the panic of the code as pinned); after a "
+          "disposal the counter of every surviving boundary equals the number of tasks still pending under it (C14_counters_released, C14_counter_invariant_reachable). Every run inserts a disposal "
+          "of every scope at every position of several schedules over 5 base trees (348 cases quick), drains the executor, and compares poll logs, panics caught by the hook and loading flags with "
+          "the model; the oracle restates the three clauses on the observed logs."),
     note=ATB, design="5.C14")
 CHECKS["C15"] = dict(
     technique="Coq proof (invariant by induction over all event sequences) on a transition system of Resource + differential correspondence over all completion orders + oracle",
